@@ -1,10 +1,24 @@
-"""Tie B for M5 (Model/Serial.lean): the real `to_dict / from_dict / to_json / from_json / copy` of every message and
-struct class against the Lean model (per leaf field), plus the Spec of C10 evaluated on what the real code did.
+"""Tie B for M5 (Model/Serial.lean, Model/Json.lean, Model/Heap.lean): the real `to_dict / from_dict / to_json /
+from_json / copy` of every message and struct class against the Lean model (whole dictionaries, JSON text, storage
+scripts, and per leaf field as before), plus the Spec of C10 evaluated on what the real code did.
 
 Case grammar sent to `drv_serial`:
     SER <id>
+    DESC <desc>                          the class descriptor:  desc := L <k> <k field type tokens>  |  A <n> <desc>
+                                                                       |  ( <sizeof> { F <name> <offset in the struct> <desc> }* )
+    DICT <val>                           the whole `to_dict()`: val := V <k> <k value tokens>  |  [ <val>* ]  |  { { K <name> <val> }* }
     LEAF <absolute offset> <field type tokens> | <value tokens of the to_dict entry>        one per leaf field
     B0 <hex of the original message>
+    FTOK <float bits, hex> <token>       what Python's `json` writes for that float (`float.__repr__`, NaN, Infinity, -Infinity)
+    JMIN / JPRETTY <hex of the text>     `to_json(minify=True)` / `to_json()` of the message data
+    HDESC <desc> / HB <hex> / HJMIN / HJPRETTY <hex of the text>     the header class, a header, `Message(header, data).to_json`
+    HOP N <cls> <hex> | C <cls> <sizeof cls> <src> | CE <cls> <sizeof cls> <src> | V <src> <off> <size> <cls>
+        | W <dst> <off> <hex> | M <hdr> <data>       a storage script run on real ctypes objects (ids in creation order):
+                                         new object, `cls.copy(src)`, the same raising ValueError, nested-struct view,
+                                         memmove into an object, `Message.copy`;   HRD <id> <cls> <hex>  bytes at the end
+    FD <probe> <hex of from_dict(v) | err> <val>     `from_dict` on the dictionary itself (`self`), on what json.loads
+                                         gives back (`json`), and on altered ones (strings as lists of characters, a key
+                                         missing, a struct-array list too short / too long, a value of the wrong shape)
     BD <hex of from_dict(to_dict(m)) | err>
     RT <trip name> <hex of the decoded message | err:Class>
     COPY <1 if the copy shares storage with the original>
@@ -43,6 +57,93 @@ def dict_leaf(d: Dict[str, Any], path: Tuple, name: str):
     for p in path:
         cur = cur[p]
     return cur[name]
+
+
+def desc_tokens(W: VC.World, cls) -> List[str]:
+    """the walk of `_fields_` that `_to_dict` / `_from_dict` perform, with the offsets ctypes reports"""
+    out = ["(", str(ctypes.sizeof(cls))]
+    for name, fty, off in W.fields(cls):
+        out += ["F", name, str(off)]
+        if fty[0] == "strct":
+            out += desc_tokens(W, W.structs[fty[1]])
+        elif fty[0] == "arr" and isinstance(fty[2], tuple):
+            out += ["A", str(fty[3])] + desc_tokens(W, W.structs[fty[2][1]])
+        else:
+            t = VC.tok_fty(fty).split()
+            out += ["L", str(len(t))] + t
+    out.append(")")
+    return out
+
+
+def val_tokens(W: VC.World, x) -> List[str]:
+    """a `to_dict()` result (or an altered one) as tokens"""
+    if isinstance(x, dict):
+        out = ["{"]
+        for k, v in x.items():
+            out += ["K", str(k)] + val_tokens(W, v)
+        return out + ["}"]
+    if isinstance(x, list) and any(isinstance(e, dict) for e in x):
+        out = ["["]
+        for e in x:
+            out += val_tokens(W, e)
+        return out + ["]"]
+    t = VC.tok_val(canon_val(W, x)).split()
+    return ["V", str(len(t))] + t
+
+
+def dict_variants(W: VC.World, cls, d: Dict[str, Any], rng) -> List[Tuple[str, Any]]:
+    """altered copies of a `to_dict()` result: every one is a value `from_dict` may be handed"""
+    import copy as _copy
+
+    def sites(cur, cl, path, acc):
+        for name, fty, _off in W.fields(cl):
+            if fty[0] == "strct":
+                acc.append(("struct", path + (name,)))
+                sites(cur[name], W.structs[fty[1]], path + (name,), acc)
+            elif fty[0] == "arr" and isinstance(fty[2], tuple):
+                acc.append(("sarr", path + (name,)))
+                for i in range(fty[3]):
+                    sites(cur[name][i], W.structs[fty[2][1]], path + (name, i), acc)
+            else:
+                acc.append(("str" if fty[0] == "str" else "leaf", path + (name,)))
+        return acc
+
+    def edit(path, fn):
+        v = _copy.deepcopy(d)
+        cur = v
+        for q in path[:-1]:
+            cur = cur[q]
+        fn(cur, path[-1])
+        return v
+
+    S = sites(d, cls, (), [])
+    out: List[Tuple[str, Any]] = []
+    strs = [p for k, p in S if k == "str"]
+    if strs:
+        v = _copy.deepcopy(d)
+        for p in strs:
+            if rng.random() < 0.7:
+                cur = v
+                for q in p[:-1]:
+                    cur = cur[q]
+                cur[p[-1]] = list(cur[p[-1]])
+        out.append(("chars", v))
+    anyp = [p for _k, p in S]
+    if anyp:
+        out.append(("missing", edit(rng.choice(anyp), lambda c, k: c.pop(k))))
+    sarrs = [p for k, p in S if k == "sarr"]
+    if sarrs:
+        out.append(("short", edit(rng.choice(sarrs), lambda c, k: c[k].pop())))
+        out.append(("long", edit(rng.choice(sarrs), lambda c, k: c[k].append(_copy.deepcopy(c[k][0])))))
+        out.append(("shape_sarr", edit(rng.choice(sarrs), lambda c, k: c.__setitem__(k, {"zz": 1}))))
+        out.append(("shape_elem", edit(rng.choice(sarrs), lambda c, k: c[k].__setitem__(rng.randrange(len(c[k])), 5))))
+    structs = [p for k, p in S if k == "struct"]
+    if structs:
+        out.append(("shape_struct", edit(rng.choice(structs), lambda c, k: c.__setitem__(k, 5))))
+    lf = [p for k, p in S if k in ("leaf", "str")]
+    if lf:
+        out.append(("shape_leaf", edit(rng.choice(lf), lambda c, k: c.__setitem__(k, {"zz": 1}))))
+    return out
 
 
 def canon_val(W: VC.World, x) -> tuple:
@@ -152,6 +253,117 @@ def _trip(fn) -> str:
         return "err:" + type(e).__name__
 
 
+def heap_script(W: VC.World, cls, m, rng, is_msg: bool) -> List[str]:
+    """a random script of copies / views / writes / Message.copy on real ctypes objects; `m` is restored at the end"""
+    from pyrtma.message import Message, get_header_cls
+    b0 = bytes(m)
+    objs: List[Any] = []           # keeps every object alive: no buffer is ever freed and reused
+    lines: List[str] = []
+
+    def tid(c) -> int:
+        return W.tid_for(c)
+
+    def add(o):
+        objs.append(o)
+        return len(objs) - 1
+    fresh = cls.from_buffer_copy(b0)                     # object 0: same class and bytes as m, storage of its own
+    add(fresh)
+    lines.append(f"HOP N {tid(cls)} {VC.hx(b0)}")
+    hdrs: List[int] = []
+    if is_msg:
+        for tc in (False, True):
+            hc = get_header_cls(tc)
+            h = hc()
+            h.msg_type, h.num_data_bytes, h.send_time, h.version = cls.type_id, ctypes.sizeof(cls), 0.5, cls.type_hash
+            hdrs.append(add(h))
+            lines.append(f"HOP N {tid(hc)} {VC.hx(bytes(h))}")
+    small = W.structs[1]
+    for _ in range(rng.randrange(6, 14)):
+        k = rng.randrange(len(objs))
+        o = objs[k]
+        n = ctypes.sizeof(o)
+        r = rng.random()
+        if r < 0.3:
+            add(type(o).copy(o))
+            lines.append(f"HOP C {tid(type(o))} {n} {k}")
+        elif r < 0.4:
+            # a copy as another class: the first sizeof(class) bytes, or ValueError if the source is smaller
+            other = rng.choice([small, W.N, cls])
+            z = ctypes.sizeof(other)
+            try:
+                c = other.copy(o)
+                add(c)
+                lines.append(f"HOP C {tid(other)} {z} {k}")
+            except ValueError:
+                lines.append(f"HOP CE {tid(other)} {z} {k}")
+        elif r < 0.55:
+            subs = []
+            for name, fty, off in W.fields(type(o)):
+                if fty[0] == "strct":
+                    subs.append((name, None, off, fty[2], W.structs[fty[1]]))
+                elif fty[0] == "arr" and isinstance(fty[2], tuple):
+                    i = rng.randrange(fty[3])
+                    subs.append((name, i, off + i * fty[2][2], fty[2][2], W.structs[fty[2][1]]))
+            if subs:
+                name, i, off, sz, sc = rng.choice(subs)
+                v = getattr(o, name) if i is None else getattr(o, name)[i]
+                if ctypes.addressof(v) != ctypes.addressof(o) + off:
+                    raise C.MachineryError("a nested struct is not where the field table says")
+                add(v)
+                lines.append(f"HOP V {k} {off} {sz} {tid(sc)}")
+        elif r < 0.9 or not hdrs:
+            ln = rng.randrange(1, min(n, 6) + 1)
+            off = rng.randrange(0, n - ln + 1)
+            data = bytes(rng.randrange(256) for _ in range(ln))
+            ctypes.memmove(ctypes.addressof(o) + off, data, ln)
+            lines.append(f"HOP W {k} {off} {VC.hx(data)}")
+        else:
+            hk = rng.choice(hdrs)
+            dks = [i for i, x in enumerate(objs) if type(x) is cls]
+            dk = rng.choice(dks)
+            mc = Message.copy(Message(objs[hk], objs[dk]))
+            hdrs.append(add(mc.header))
+            add(mc.data)
+            lines.append(f"HOP M {hk} {dk}")
+    for i, o in enumerate(objs):
+        lines.append(f"HRD {i} {tid(type(o))} {VC.hx(bytes(o))}")
+    if bytes(m) != b0:
+        raise C.MachineryError("the storage script touched the message under test")
+    return lines
+
+
+def run_timecode_case(cid: str, cls, m) -> List[str]:
+    """header-plus-data JSON and the dict round trip of the header when the header class is the time-code variant
+    (a case of its own: the driver reports the first false clause of a case only)"""
+    from pyrtma.message import Message, get_header_cls
+    W = VC.world()
+    W.V._VALIDATION_ENABLED.set(True)
+    hc = get_header_cls(True)
+    h = hc()
+    h.msg_type, h.num_data_bytes, h.src_mod_id, h.dest_mod_id = cls.type_id, ctypes.sizeof(cls), 11, 7
+    h.msg_count, h.send_time, h.version = 3, 0.25, cls.type_hash
+    h.utc_seconds, h.utc_fraction = 1700000000, 123456
+    hb = bytes(h)
+    lines = [f"SER {cid}", "B0 " + VC.hx(bytes(m))]
+
+    def whole(minify):
+        r = Message.from_json(Message(h, m).to_json(minify=minify))
+        if type(r.header) is not hc or bytes(r.header) != hb:
+            raise AssertionError("header differs")
+        return r.data
+
+    def hdr_dict():
+        r = hc.from_dict(h.to_dict())
+        if bytes(r) != hb:
+            raise AssertionError("header differs")
+        return m
+    lines.append("RT message_json_timecode_header " + _trip(lambda: whole(False)))
+    lines.append("RT message_json_minified_timecode_header " + _trip(lambda: whole(True)))
+    lines.append("RT dict_of_timecode_header " + _trip(hdr_dict))
+    lines += ["COPY 0", "END"]
+    return lines
+
+
 def run_case(cid: str, cls, m) -> List[str]:
     W = VC.world()
     from pyrtma.message import Message, get_header_cls, _msg_defs
@@ -161,11 +373,58 @@ def run_case(cid: str, cls, m) -> List[str]:
     b0 = bytes(m)
     lines = [f"SER {cid}"]
     d = m.to_dict()
+    lines.append("DESC " + " ".join(desc_tokens(W, cls)))
+    lines.append("DICT " + " ".join(val_tokens(W, d)))
+    ftoks: Dict[int, str] = {}
+
+    def collect(x):
+        if isinstance(x, float):
+            ftoks[VC.f2b(x)] = json.dumps(x)
+        elif isinstance(x, dict):
+            for v in x.values():
+                collect(v)
+        elif isinstance(x, (list, tuple)):
+            for v in x:
+                collect(v)
+    collect(d)
+    lines.append("JMIN " + VC.hx(m.to_json(minify=True).encode("ascii")))
+    lines.append("JPRETTY " + VC.hx(m.to_json().encode("ascii")))
+    if isinstance(m, MessageData) and _msg_defs.get(getattr(cls, "type_id", None)) is cls:
+        hc0 = get_header_cls()
+        h0 = hc0()
+        h0.msg_type, h0.num_data_bytes, h0.src_mod_id, h0.dest_mod_id = cls.type_id, ctypes.sizeof(cls), 11, 7
+        h0.msg_count, h0.send_time, h0.recv_time, h0.version = 3, 0.1, 1e22, cls.type_hash
+        collect(h0.to_dict())
+        lines.append("HDESC " + " ".join(desc_tokens(W, hc0)))
+        lines.append("HB " + VC.hx(bytes(h0)))
+        lines.append("HJMIN " + VC.hx(Message(h0, m).to_json(minify=True).encode("ascii")))
+        lines.append("HJPRETTY " + VC.hx(Message(h0, m).to_json().encode("ascii")))
+    for bits, tok in sorted(ftoks.items()):
+        lines.append(f"FTOK {bits:016x} {tok}")
     for path, name, fty, off in leaves(W, cls):
         lines.append(f"LEAF {off} {VC.tok_fty(fty)} | {VC.tok_val(canon_val(W, dict_leaf(d, path, name)))}")
     lines.append("B0 " + VC.hx(b0))
     bd = _trip(lambda: cls.from_dict(m.to_dict()))
     lines.append("BD " + ("err" if bd.startswith("err") else bd))
+    import copy as _copy
+    import random as _random
+    import zlib as _zlib
+    vr = _random.Random(_zlib.crc32(b0 + cls.__name__.encode()))
+    probes = [("self", m.to_dict())]
+    if len(b0) <= 2048:           # (big classes: the json.loads image is covered by the model's own fromJson on the text)
+        try:
+            probes.append(("json", json.loads(m.to_json(minify=True))))
+        except Exception:  # noqa: BLE001
+            pass
+    variants = dict_variants(W, cls, m.to_dict(), vr)
+    if len(b0) > 2048 and len(variants) > 2:
+        # the model stores array elements one by one like ctypes does (quadratic in the field size): big classes get two
+        # of the altered dictionaries per case, chosen at random, instead of all of them
+        variants = vr.sample(variants, 2)
+    probes += variants
+    for pname, v in probes:
+        toks = " ".join(val_tokens(W, v))
+        lines.append(f"FD {pname} " + _trip(lambda v=v: cls.from_dict(_copy.deepcopy(v))).split(":")[0] + " " + toks)
     lines.append("RT bytes " + _trip(lambda: cls.from_buffer_copy(bytes(m))))
     lines.append("RT dict " + bd)
     lines.append("RT json " + _trip(lambda: cls.from_json(m.to_json())))
@@ -248,5 +507,6 @@ def run_case(cid: str, cls, m) -> List[str]:
     except Exception as e:  # noqa: BLE001
         lines.append("RT copy err:" + type(e).__name__)
     lines.append(f"COPY {shares}")
+    lines += heap_script(W, cls, m, vr, is_msg)
     lines.append("END")
     return lines
